@@ -138,8 +138,11 @@ class BundleFlattener(ElabPass):
         """Flatten Module `module`s Bundles, replacing them with newly-created Signals.
         Reconnect the flattened Signals to any Instances connected to said Bundles."""
 
-        # Cache the state of the Module's IOs before flattening
-        module._pre_flattening_io = copy.copy(io(module))
+        # Cache the state of the Module's IOs before flattening.
+        # Only the first time: a module visited again, e.g. by a sub-class of this pass
+        # in a custom pass-list, has already had its bundle-valued ports flattened.
+        if module._pre_flattening_io is None:
+            module._pre_flattening_io = copy.copy(io(module))
 
         # Remove and replace each `BundleInstance` from the Module
         while module.bundles:
